@@ -369,7 +369,12 @@ def safe_eval(expr: ast.expr, culprit: ast.AST) -> Any | None:
         return tuple([safe_eval(e, culprit) for e in expr.elts])
 
     if isinstance(expr, ast.Set):
-        return set([safe_eval(e, culprit) for e in expr.elts])
+        elements = [safe_eval(e, culprit) for e in expr.elts]
+
+        try:
+            return set(elements)
+        except TypeError:
+            return error.fatal(_error.format("a set of unhashable elements"), culprit)
 
     if isinstance(expr, ast.Dict):
         if not all(k is not None for k in expr.keys):
@@ -378,7 +383,10 @@ def safe_eval(expr: ast.expr, culprit: ast.AST) -> Any | None:
         keys = map(lambda k: safe_eval(k, culprit), expr.keys)
         values = map(lambda v: safe_eval(v, culprit), expr.values)
 
-        return {k: v for k, v in zip(keys, values)}
+        try:
+            return {k: v for k, v in zip(keys, values)}
+        except TypeError:
+            return error.fatal(_error.format("a dictionary with unhashable keys"), culprit)
 
     return error.fatal(_error.format(f"'{ast.dump(expr)}'"), culprit)
 
@@ -453,6 +461,9 @@ def is_list_of_call_specs(
         target_pos_args, target_keyword_args = target_args
 
         if not is_list_of_names(target_pos_args):
+            return False
+
+        if not isinstance(target_keyword_args, dict):
             return False
 
         for arg_name, local_identifier in target_keyword_args.items():
